@@ -506,6 +506,9 @@ impl MatcherHandle {
 
         trace!("sent {count} rows");
 
+        #[cfg(feature = "verif")]
+        crate::verif::point("catchup.rows_done", &self.id().to_string());
+
         let max_change_id = conn
             .prepare("SELECT COALESCE(MAX(id),0) FROM changes")?
             .query_row([], |row| row.get(0))?;
